@@ -293,6 +293,15 @@ def same_part(x, y):
     return same(x.index, y.index) and same(x.label, y.label) and same(x.is_absolute, y.is_absolute)
 
 
+def corner_parts(first, second, p, q):
+    # the smaller index goes to the top-left cell, the larger to the bottom-right one; equal indices: either way round
+    if p.index < q.index:
+        return same_part(first, p) and same_part(second, q)
+    if p.index > q.index:
+        return same_part(first, q) and same_part(second, p)
+    return (same_part(first, p) and same_part(second, q)) or (same_part(first, q) and same_part(second, p))
+
+
 def range_event_post(self, start_label, end_label, out):
     es = emits(self)
     if len(es) != 1 or es[0][0] != 'callRangeValue':
@@ -306,9 +315,7 @@ def range_event_post(self, start_label, end_label, out):
         return False
     # the two row descriptors and the two column descriptors of the upper-cased corner labels, each whole (index, label,
     # absolute flag), distributed over the two cells
-    rows_ok = (same_part(a.row, s[0]) and same_part(b.row, e[0])) or (same_part(a.row, e[0]) and same_part(b.row, s[0]))
-    cols_ok = (same_part(a.col, s[1]) and same_part(b.col, e[1])) or (same_part(a.col, e[1]) and same_part(b.col, s[1]))
-    if not (rows_ok and cols_ok):
+    if not (corner_parts(a.row, b.row, s[0], e[0]) and corner_parts(a.col, b.col, s[1], e[1])):
         return False
     # each cell's label agrees with the coordinates it carries
     if not (same(a.label, to_label.spec(a.row, a.col)) and same(b.label, to_label.spec(b.row, b.col))):
